@@ -351,7 +351,7 @@ func (c *vController) point() {
 	c.mu.Unlock()
 	select {
 	case <-ch:
-	case <-time.After(4 * time.Second):
+	case <-time.After(2 * time.Second):
 		// the schedule cannot be followed (a thread is blocked for real):
 		// fall back to free running so that the test terminates
 		c.mu.Lock()
